@@ -222,7 +222,7 @@ def _split_case(case, d):
                 probs.append("outputTGFlag='phones': tiers %r" % (sub.tierNames,))
     # extractSubwav on one of the intervals
     es, ee, lab = ents[0]
-    exfn = os.path.join(d, "ex.wav")
+    exfn = core.fname(os.path.join(d, "ex.wav"))
     audio.extractSubwav(wavfn, exfn, es, ee)
     got, params = _read_wav(exfn)
     if got != s[round(es * rate):round(ee * rate)] or params != [1, w, rate]:
@@ -261,7 +261,7 @@ def run(case):
     try:
         if op == "readat":
             w, rate, s = case["w"], case["rate"], case["s"]
-            fn = os.path.join(d, "a.wav")
+            fn = core.fname(os.path.join(d, "a.wav"))
 
             def h():
                 _write_wav(fn, s, w, rate)
